@@ -1,4 +1,5 @@
 import GoRedisModel.Proofs.Loop
+import GoRedisModel.Proofs.SourceFacts
 /-! # C07 — no client can crash the server or disturb other clients
 
 In the model a Go run-time panic inside the connection goroutine is the event `crash`: it is caught by the
@@ -59,5 +60,9 @@ panic), nothing is written, the registry entry is removed -/
 example : serve nf {} false b!"*2\r\n$4\r\nINCR\r\n$1\r\nk\r\n" [{}] =
     [.register, .rootStart, .spanStart b!"parse", .spanFinish, .spanStart b!"INCR", .hcall (.get b!"k") { authorized := true },
      .spanFinish, .crash, .deregister, .close] := by decide +kernel
+
+/-- the recover barrier is present and is the first deferred call of the connection loop in the current source -/
+theorem C07_source_recover_barrier :
+    (factHolds "recoverBarrier" && factHolds "recoverBarrierFirst") = true := source_recover_barrier
 
 end GoRedis
